@@ -240,7 +240,7 @@ def h13g(c):
     request on one market takes effect does not depend on another market of the run ending or closing while it is in flight"""
     from .c14 import h14a
     from .c06 import _Only
-    h14a(_Only(c, ("request-takes-effect", "no-exception", "every-update-delivered")), n_streams=2, lengths=(2, 3), orders=True, closing=True)
+    h14a(_Only(c, ("request-takes-effect", "request-not-executed-on-another", "no-exception", "every-update-delivered")), n_streams=2, lengths=(2, 3), orders=True, closing=True)
 
 
 def h13h(c, U=3):
